@@ -3,5 +3,5 @@
 # build overlay (scripts/seedrun.sh); prints one line per seed. usage: scripts/seedmatrix.sh [jobs, default 3]
 cd /verif
 jobs="${1:-3}"
-ls seeded | xargs -P "$jobs" -I{} bash -c 'id={}; p=${id%%-*}; scripts/seedrun.sh $id $p quick' | tee .scratch/seedmatrix-last.txt
-echo "caught: $(grep -c "exit=1 violations=[1-9]" .scratch/seedmatrix-last.txt) of $(ls seeded | wc -l)"
+ls -d seeded/*/ | xargs -n1 basename | xargs -P "$jobs" -I{} bash -c 'id={}; p=${id%%-*}; scripts/seedrun.sh $id $p quick' | tee .scratch/seedmatrix-last.txt
+echo "caught: $(grep -c "exit=1 violations=[1-9]" .scratch/seedmatrix-last.txt) of $(ls -d seeded/*/ | wc -l)"
